@@ -55,6 +55,17 @@ const char *pc;         /* Program pointer. */
 int function_index_offset;	/* Needed for inheritance */
 int variable_index_offset;	/* Needed for inheritance */
 
+#ifdef NEOLITH_VERIF
+/* verification hook H2: fault injection at instruction dispatch.
+ * verif_instruction_count counts every instruction dispatched by eval_instruction().
+ * When verif_fault_countdown is positive it is decremented per dispatched instruction and,
+ * on reaching zero, a catchable LPC error is raised instead of executing that instruction
+ * (verif_fault_hook, if set, is called first so a harness can look at the machine state). */
+long verif_fault_countdown = 0;
+unsigned long verif_instruction_count = 0;
+void (*verif_fault_hook) (void) = 0;
+#endif
+
 /* -1 indicates that we have never had a master object.  This is so the
  * simul_efun object can load before the master. */
 object_t *master_ob = 0;
@@ -754,6 +765,15 @@ void eval_instruction (const char *p) {
   pc = p; // current_prog->program
   while (1)
     {
+#ifdef NEOLITH_VERIF
+      verif_instruction_count++;
+      if (verif_fault_countdown > 0 && --verif_fault_countdown == 0)
+        {
+          if (verif_fault_hook)
+            (*verif_fault_hook) ();
+          error ("*verif injected fault\n");
+        }
+#endif
       instruction = EXTRACT_UCHAR (pc++);
       if (!--eval_cost)
         {
